@@ -32,7 +32,7 @@ func runProbe(p *pipeRun, cfg *pipeCfg, reqMsgs, respMsgs []wireMsg, respComp bo
 // sync.Pool is modelled as always handing back the most recently released object (the worst case for
 // state leaking between RPCs).
 func hC15History() {
-	cfg := &pipeCfg{maxMsg: 64, kind: fkBidi, client: cfGRPC, clientCodec: CodecProto}
+	cfg := &pipeCfg{maxMsg: 64, kind: fkBidi, client: cfGRPC, clientCodec: CodecProto, failMarshal: true}
 	cfg.svcProtos = []Protocol{[]Protocol{ProtocolConnect, ProtocolGRPCWeb, ProtocolGRPC}[verifChoose("target", 3)]}
 	// the probe exercises re-encoding and de/re-compression so that pooled buffers and (de)compressors are used
 	cfg.svcCodecs = []string{CodecJSON}
@@ -46,6 +46,11 @@ func hC15History() {
 		reqMsgs = append(reqMsgs, wireMsg{abstract: nondetBytes("req", 1)})
 	}
 	respMsgs := []wireMsg{{abstract: nondetBytes("resp", 2), compressed: cfg.svcComp}}
+	for _, m := range append(append([]wireMsg{}, reqMsgs...), respMsgs...) {
+		for _, b := range m.abstract {
+			verifAssume(b != 0xFF) // (the byte the toy codecs cannot marshal: the probe itself is well-formed)
+		}
+	}
 
 	// handlers written with connect-go / grpc-go close the request body themselves; plain handlers do not
 	closeBody := verifChoose("handlerClosesBody", 2) == 1
@@ -72,7 +77,7 @@ func hC15History() {
 		rounds = 2
 	}
 	for round := 0; round < rounds; round++ {
-		c15History(used, cfg, verifChoose("history", 7))
+		c15History(used, cfg, verifChoose("history", 9))
 	}
 
 	verifObsBytes("fresh-backend-body", want.body)
@@ -136,6 +141,13 @@ func c15History(used *pipeRun, cfg *pipeCfg, history int) {
 			used.tr.ServeHTTP(used.sink, used.req)
 		}()
 		used.tr.methods[pipePath].handler = used.backend
+	case 6, 7: // a message that decodes but has no form in the other codec: in the request (6) or the response (7)
+		bad := []wireMsg{{abstract: []byte{'B', 0xFF, 'D'}, compressed: true}}
+		if history == 6 {
+			runProbe(used, cfg, bad, []wireMsg{{abstract: []byte("OLDRESP")}}, false)
+		} else {
+			runProbe(used, cfg, []wireMsg{{abstract: []byte("OLDREQ"), compressed: true}}, []wireMsg{{abstract: []byte{'B', 0xFF}}}, false)
+		}
 	default: // pools seeded directly with dirty objects
 		dirty := bytes.NewBuffer(make([]byte, 0, 4))
 		dirty.WriteString("stale-bytes")
